@@ -30,6 +30,15 @@ def c15_struct(tier="quick", seed=0):
     bad = [c for c in consumers if c[2] not in allowed_forms]
     out.append(ob("C15.struct.set-order-consumers", not bad and len(consumers) >= 4, "K3",
                   f"set-order consumers: {[(c[0], c[2]) for c in consumers]}; outside the name-table forms: {bad}"))
+    # 1b. the same question for every module, by inference instead of by variable name: an expression is a set if it
+    # is a set display/comprehension, set()/frozenset(), set arithmetic (also on dict key/item views, which yields a set),
+    # a call of a function that returns one, or a local assigned from one; order-sensitive uses are for-loops, list/tuple/
+    # enumerate/iter/next/zip/join/extend/fromkeys, comprehensions other than set comprehensions, unpacking and pop()
+    found, set_funcs = S.scan_all(S.source().modules)
+    bad2 = [c for c in found if not (c[0] == "microjs.compiler" and c[3] in allowed_forms)]
+    out.append(ob("C15.struct.set-order-consumers.all-modules", not bad2 and len(found) >= 4, "K3",
+                  f"{len(found)} order-sensitive uses of a set in the package (set-returning functions: {sorted(set_funcs)}); outside the compiler's name tables: {bad2}",
+                  witness="enumerate the own keys of a function's prototype object under several PYTHONHASHSEED values"))
     # 2. slots are always resolved by name
     for fn, pat in (("_get_local", "self.locals.index(name)"), ("_get_cell_var", "self._cell_vars.index(name)"), ("_get_free_var", "self._free_vars.index(name)"),
                     ("_add_local", "self.locals.index(name)")):
@@ -74,6 +83,20 @@ def c15_struct(tier="quick", seed=0):
     return out
 
 
+# programs whose result is an enumeration order (creation order, whatever the hash seed): prototype objects (which carry a
+# hidden `constructor`), objects with accessors, deleted and re-created keys, inherited keys, built-in results
+ENUM_PROGS = [
+    ("function S(){}; S.prototype.area = function(){}; S.prototype.name2 = 's'; S.prototype.zed = 1; S.prototype.alpha = 2; S.prototype.mid = 3; var ks = []; "
+     "for (var k in S.prototype) ks.push(k); ks.join() + '|' + Object.keys(S.prototype).join()", "area,name2,zed,alpha,mid|area,name2,zed,alpha,mid"),
+    ("var o = {get b(){ return 1 }, a: 2, set c(v){}, d: 4, zz: 5, k: 6}; Object.keys(o).join()", "b,a,c,d,zz,k"),
+    ("var o = {}; ['q','w','e','r','t','y'].forEach(function(k){ o[k] = 1 }); delete o.e; o.e = 2; Object.keys(o).join()", "q,w,r,t,y,e"),
+    ("function F(){ this.m = 1; this.n = 2; this.zq = 3 } F.prototype.p = 3; F.prototype.q = 4; F.prototype.aa = 5; var ks = []; for (var k in new F()) ks.push(k); ks.join()", "m,n,zq"),      # (for-in: own keys only, as the engine documents)
+    ("var o = {z: 1, y: 2, x: 3, w: 4, v: 5}; JSON.stringify(o) + Object.values(o).join('') + Object.entries(o).map(function(e){ return e[0] }).join('')", '{"z":1,"y":2,"x":3,"w":4,"v":5}12345zyxwv'),
+    ("var t = Object.assign({}, {one: 1, two: 2, three: 3, four: 4}); Object.keys(t).join()", "one,two,three,four"),
+    ("var o = Object.create({inh1: 1, inh2: 2, inh3: 3}); o.own1 = 1; o.own2 = 2; var ks = []; for (var k in o) ks.push(k); ks.join()", "own1,own2"),
+]
+
+
 def _seed_worker(args):
     seed_env, progs = args
     import subprocess, json, os, sys
@@ -100,7 +123,7 @@ def c15_hashseeds(tier="quick", seed=0):
         js, exp = G.program(seed * 100000 + i)
         progs.append(js)
         expect.append(exp)
-    for js, exp in G.EXTRA:
+    for js, exp in list(G.EXTRA) + ENUM_PROGS:
         progs.append(js)
         expect.append(exp)
     seeds = list(range(16)) if tier == "quick" else list(range(32))
@@ -141,7 +164,13 @@ def c15_batch(tier="quick", seed=0):
     rng = random.Random(seed)
     progs = [G.program(1000 + i)[0] for i in range(25)] + [js for js, _ in G.EXTRA] + [
         "function a(){ function b(){ break } } 1", "function a(){ return function(){ continue } } 2", "var x = ;", "null.x", "(function f(){ return f() })()",
-        "var q = 1; function g(){ return q } g()", "function h(){ var q = 2; return function(){ return q } } h()()"]
+        "var q = 1; function g(){ return q } g()", "function h(){ var q = 2; return function(){ return q } } h()()",
+        # programs that write to their context's built-ins, and programs that read the same members on a fresh context
+        "Math.clamp = function(){ return 1 }; Math.max = undefined; typeof Math.clamp", "typeof Math.clamp + '|' + typeof Math.max + '|' + Math.max(1, 2)",
+        "JSON.extra = 1; JSON.parse = null; typeof JSON.extra", "typeof JSON.extra + '|' + typeof JSON.parse", "Array.prototype.zz = 1; Array.isArray = 5; [].zz",
+        "typeof [].zz + '|' + typeof [1].slice().zz + '|' + typeof Array.isArray", "Object.prototype.pp = 1; Object.keys = 0; ({}).pp", "typeof ({}).pp + '|' + typeof Object.keys",
+        "String.fromCharCode = 7; parseInt.mark = 1; Error.prototype.tag = 2; 0", "typeof String.fromCharCode + '|' + typeof parseInt.mark + '|' + typeof new Error('x').tag",
+        "Number.MAX_SAFE_INTEGER = 1; Number.isInteger = 0; Date.now = 3; 0", "Number.MAX_SAFE_INTEGER + '|' + typeof Number.isInteger + '|' + typeof Date.now"] + [js for js, _ in ENUM_PROGS]
 
     def run(p):
         try:
@@ -167,13 +196,5 @@ def c15_process_state(tier="quick", seed=0):
     """nothing survives in the process from one context (or evaluation) to the next: no module-level or class-level
     mutable container is ever mutated, no `global` statement, no memoising decorator (the analysis of C12, which
     a result depending on earlier contexts in the same process would have to get past)"""
-    from contracts.C12_context import c12_struct
-    out = []
-    for o in c12_struct(tier, seed):
-        if any(k in o["id"] for k in (".module-state.", ".class-state.", ".global-stmt.", ".cache", ".decorator")):
-            o = dict(o)
-            o["id"] = o["id"].replace("C12.", "C15.", 1)
-            o["finding_key"] = o["id"]
-            out.append(o)
-    out.append(ob("C15.struct.process-state.inventory", len(out) > 0, "K3", f"{len(out)} module/class-level bindings inspected"))
-    return out
+    from contracts.C12_context import process_state
+    return process_state("C15", tier, seed)
